@@ -4,6 +4,8 @@ import (
 	"fmt"
 	"strings"
 
+	"go/token"
+
 	"golang.org/x/tools/go/ssa"
 )
 
@@ -249,6 +251,11 @@ func checkC01(c *Check) {
 	// ... and stays what it was: nothing on the correlator's side writes
 	// through the login's event, whose subjects every event of the session
 	// is rendered from (rule S7 of C03)
+	loginDeliveredAsReceived(c)
+	// the events a session emits are its own: each session's hold queue is
+	// its own storage (rule of C02)
+	nq := importRules(c, "C02", checkC02, "own-events-only: ", "queue-private")
+	c.Floor("imported own-events-only obligations", 3, nq)
 	ns := importRules(c, "C03", checkC03, "login-unaltered: ", "S7 login-event-read-only")
 	c.Floor("imported login-unaltered obligations", 1, ns)
 }
@@ -400,4 +407,72 @@ func finderJustified(p *Prog, b TFact) (bool, string) {
 		return false, ""
 	}
 	return true, "the object is result #" + fmt.Sprint(u.Idx) + " of " + sc.Name() + ", assigned only on the true edge of v.srcPID == pid with pid bound to this login's PID; the bind is conditional on that call's result"
+}
+
+
+// loginDeliveredAsReceived: between the logins channel and the tracker the
+// login is not touched: the value given to RemoteLogin is the value received
+// from the channel, with no field of it assigned on the way. A login whose
+// Source is redirected (to a copy kept in a variable of the loop, a cache, a
+// pooled object) makes several sessions share one identity object.
+func loginDeliveredAsReceived(c *Check) {
+	p := c.P
+	n := 0
+	for _, fn := range p.AllRepoFuncs() {
+		if FuncPkgPath(fn) != ModPath+"/processors/auditd" || fn.Blocks == nil {
+			continue
+		}
+		for _, ci := range callsIn(fn) {
+			cc := ci.Common()
+			name := ""
+			if cc.IsInvoke() {
+				name = cc.Method.Name()
+			} else if sc := staticCallee(cc); sc != nil {
+				name = sc.Name()
+			}
+			if name != "RemoteLogin" || len(cc.Args) == 0 {
+				continue
+			}
+			arg := cc.Args[len(cc.Args)-1]
+			if nt := namedOf(arg.Type()); nt == nil || nt.Obj().Name() != "RemoteUserLogin" {
+				continue
+			}
+			n++
+			okA, why := true, "the value received from the logins channel"
+			v := strip(arg)
+			if ld, isLd := v.(*ssa.UnOp); isLd && ld.Op == token.MUL {
+				if al, isAl := ld.X.(*ssa.Alloc); isAl && al.Referrers() != nil {
+					for _, u := range *al.Referrers() {
+						switch x := u.(type) {
+						case *ssa.FieldAddr:
+							if x.Referrers() != nil {
+								for _, fu := range *x.Referrers() {
+									if st, ok := fu.(*ssa.Store); ok && st.Addr == ssa.Value(x) {
+										okA = false
+										why = "field " + fieldName(x.X.Type(), x.Field) + " of the received login is assigned at " + p.InstrPos(st) + " before it is delivered"
+									}
+								}
+							}
+						case *ssa.Store:
+							if x.Addr == ssa.Value(al) {
+								if _, isEx := strip(x.Val).(*ssa.Extract); !isEx {
+									if uo, isU := strip(x.Val).(*ssa.UnOp); !isU || uo.Op != token.ARROW {
+										okA = false
+										why = "the delivered login is " + trimOrg(NewResolver(p).Of(x.Val).String()) + ", not the value received from the channel"
+									}
+								}
+							}
+						}
+					}
+				}
+			} else if _, isEx := v.(*ssa.Extract); !isEx {
+				if uo, isU := v.(*ssa.UnOp); !isU || uo.Op != token.ARROW {
+					okA = false
+					why = "the delivered login is " + trimOrg(NewResolver(p).Of(arg).String()) + ", not the value received from the channel"
+				}
+			}
+			c.Cond(okA, "who-may-write-identity", "login delivered to the tracker in "+fn.Name(), p.InstrPos(ci), why, "the login is altered between the logins channel and the tracker ("+why+"): logins delivered one after the other can end up sharing one identity object, so events of an earlier session carry a later login's identity")
+		}
+	}
+	c.Floor("deliveries of a received login to the tracker", 1, n)
 }
